@@ -61,6 +61,30 @@ func runC16(c *ShardCtx) {
 			gcase{&peg.Grammar{Rules: []*peg.Rule{{Name: "B", Expr: peg.Choice(peg.Seq(peg.Ref("Z"), peg.Lit("a")), peg.Seq(loop(), peg.Lit("a")))}, {Name: "Z", Expr: peg.Choice(peg.Seq(peg.Ref("B"), peg.Lit("b")), peg.Lit("a"))}}}, core.Gen{LeftRec: true}},
 		)
 	}
+	// cross family (cross.go): every construct (predicates, blocks, throw / recover, rule calls, a
+	// left-recursive rule) under the budget sweep, also generated with -optimize-basic-latin and
+	// -optimize-grammar
+	{
+		cn := 2
+		if c.Thorough() {
+			cn = 3
+		}
+		for size := 1; size <= cn; size++ {
+			for bi, body := range crossBodies(size) {
+				if size == 3 && bi%3 != 0 {
+					continue
+				}
+				hasR := false
+				for _, r := range peg.RefsOf(body) {
+					hasR = hasR || r == "R"
+				}
+				cases = append(cases, gcase{crossGrammar(body, false), core.Gen{}}, gcase{crossGrammar(body, false), core.Gen{BasicLatin: true}}, gcase{crossGrammar(body, false), core.Gen{OptGrammar: true}})
+				if hasR {
+					cases = append(cases, gcase{crossGrammar(body, true), core.Gen{LeftRec: true}})
+				}
+			}
+		}
+	}
 	quirks := map[string]bool{}
 	for _, q := range c.Quirks() {
 		quirks[q] = true
@@ -135,7 +159,7 @@ func runC16(c *ShardCtx) {
 				runaway := base.Diverged
 				// the count itself must be right: without memoisation and left recursion every
 				// expression evaluation of the reference interpreter is one counted evaluation
-				if !runaway && !os.Memoize && !b.Flags.LeftRecursion {
+				if !runaway && !os.Memoize && !b.Flags.LeftRecursion && !gc.gen.OptGrammar { // (the optimizer changes the number of expressions)
 					if ref := peg.Run(gc.g, in, nil, core.RefOptions(&o0, b.Flags)); ref.Outcome == peg.OResult && ref.Evals != cnt {
 						c.Report(Violation{Desc: fmt.Sprintf("Stats.ExprCnt=%d but the parse evaluates %d expressions (reference count): evaluations escape the budget", cnt, ref.Evals), Grammar: text, Gen: gc.gen.String(), Input: string(in), InputHex: hexOf(in), Opts: optsString(&o0)}, "")
 					}
